@@ -42,7 +42,7 @@ Print Assumptions C01_prec_table_is_spec.
    grammar this theorem quantifies over. *)
 Theorem C01_prec_pratt_parses_layered_grammar_partial :
   forall E l st rest0 fuel,
-  Lay 0 l -> atoms_ok E l -> layout_ok l = true ->
+  no_tyerr E -> Lay 0 l -> atoms_ok E l -> layout_ok l = true ->
   rest st = render l ++ rest0 ->
   (is_wss st = true -> tight_ok l = true) ->
   (is_wss st = false -> is_ws (look0 rest0) = false) ->
@@ -58,7 +58,7 @@ Print Assumptions C01_prec_pratt_parses_layered_grammar_partial.
 Theorem C01_prec_pratt_parses_layered_grammar_fixed_partial :
   forall E l st rest0 fuel,
   e_fix_slice E = true ->
-  Lay 0 l -> atoms_ok E l -> layout_ok l = true ->
+  no_tyerr E -> Lay 0 l -> atoms_ok E l -> layout_ok l = true ->
   rest st = render l ++ rest0 ->
   (is_wss st = true -> tight_ok l = true) ->
   (is_wss st = false -> is_ws (look0 rest0) = false) ->
@@ -74,7 +74,7 @@ Theorem C01_prec_left_assoc :
   forall E o1 o2 a b c w1 w2 wa wb wc st rest0 fuel,
   rank o1 = rank o2 ->
   let l := LBin o2 (LBin o1 (LAtom a wa) w1 (LAtom b wb)) w2 (LAtom c wc) in
-  atoms_ok E l ->
+  no_tyerr E -> atoms_ok E l ->
   rest st = render l ++ rest0 ->
   (is_wss st = true -> tight_ok l = true) ->
   (is_wss st = false -> is_ws (look0 rest0) = false) ->
@@ -91,7 +91,7 @@ Theorem C01_prec_tighter_binds_first :
   forall E o1 o2 a b c w1 w2 wa wb wc st rest0 fuel,
   rank o1 < rank o2 ->
   let l := LBin o1 (LAtom a wa) w1 (LBin o2 (LAtom b wb) w2 (LAtom c wc)) in
-  atoms_ok E l ->
+  no_tyerr E -> atoms_ok E l ->
   rest st = render l ++ rest0 ->
   (is_wss st = true -> tight_ok l = true) ->
   (is_wss st = false -> is_ws (look0 rest0) = false) ->
@@ -107,7 +107,7 @@ Print Assumptions C01_prec_tighter_binds_first.
 Theorem C01_prec_unary_between :
   forall E u o a i b w1 w2 w3 wi wb st rest0 fuel,
   let l := LBin o (LUn u (LIndex (LAtom a false) w1 (LAtom i wi) w2)) w3 (LAtom b wb) in
-  atoms_ok E l ->
+  no_tyerr E -> atoms_ok E l ->
   rest st = render l ++ rest0 ->
   (is_wss st = true -> tight_ok l = true) ->
   (is_wss st = false -> is_ws (look0 rest0) = false) ->
@@ -124,7 +124,7 @@ Print Assumptions C01_prec_unary_between.
 Theorem C01_prec_layout_irrelevant :
   forall E l1 l2 st1 st2 r1 r2 fuel1 fuel2,
   erase l1 = erase l2 ->
-  Lay 0 l1 -> Lay 0 l2 -> atoms_ok E l1 -> atoms_ok E l2 -> layout_ok l1 = true -> layout_ok l2 = true ->
+  no_tyerr E -> Lay 0 l1 -> Lay 0 l2 -> atoms_ok E l1 -> atoms_ok E l2 -> layout_ok l1 = true -> layout_ok l2 = true ->
   rest st1 = render l1 ++ r1 -> rest st2 = render l2 ++ r2 ->
   (is_wss st1 = true -> tight_ok l1 = true) -> (is_wss st2 = true -> tight_ok l2 = true) ->
   (is_wss st1 = false -> is_ws (look0 r1) = false) -> (is_wss st2 = false -> is_ws (look0 r2) = false) ->
@@ -142,7 +142,7 @@ Print Assumptions C01_prec_layout_irrelevant.
    the cursor at the end of line, no error *)
 Theorem C01_prec_decl_stmt_parses :
   forall E x w0 w1 l fuel,
-  Lay 0 l -> atoms_ok E l -> layout_ok l = true ->
+  no_tyerr E -> Lay 0 l -> atoms_ok E l -> layout_ok l = true ->
   let toks := {| ttype := T_IDENT; tlit := x |} :: wsl w0 ++ mk T_DECLARE :: wsl w1 ++ render l ++ [mk T_NL] in
   2 * List.length toks <= fuel ->
   exists st', parse_stmt_expr E fuel 2 toks = Some (Some (tree_of l), st') /\
@@ -150,11 +150,12 @@ Theorem C01_prec_decl_stmt_parses :
 Proof. exact decl_stmt_parses. Qed.
 Print Assumptions C01_prec_decl_stmt_parses.
 
-(* ---------- the parseSlice defect ---------- *)
+(* ---------- the parseSlice defect (fixed in /repo by commit 16971a1; e_fix_slice = false is the code before it) ---------- *)
 Definition env_code : env :=
-  {| e_funcs := [(s_ "print", false)]; e_vars := [s_ "arr"; s_ "a"; s_ "b"; s_ "c"]; e_fix_slice := false |}.
+  {| e_funcs := [(s_ "print", false)]; e_vars := [s_ "arr"; s_ "a"; s_ "b"; s_ "c"];
+     e_tyerr := fun _ _ _ => false; e_fix_slice := false |}.
 Definition env_fixed : env :=
-  {| e_funcs := e_funcs env_code; e_vars := e_vars env_code; e_fix_slice := true |}.
+  {| e_funcs := e_funcs env_code; e_vars := e_vars env_code; e_tyerr := fun _ _ _ => false; e_fix_slice := true |}.
 Definition tk (t : toktype) (s : string) : token := {| ttype := t; tlit := s_ s |}.
 
 (* print arr[0:1] -3 *)
@@ -163,7 +164,7 @@ Definition slice_witness : list token :=
    mk T_RBRACKET; mk T_WS; mk T_MINUS; tk T_NUM_LIT "3"].
 Definition slice_tree : tree := TSlice (TVar (s_ "arr")) (Some (TNum (s_ "0"))) (Some (TNum (s_ "1"))).
 
-(* As the code is, whitespace after a slice does not end a call argument
+(* Before commit 16971a1 (e_fix_slice = false), whitespace after a slice did not end a call argument
    (§Horizontal Whitespace: WS separates arguments; rule 9 allows WS only
    WITHIN the slice brackets): `print arr[0:1] -3` becomes ONE argument
    arr[0:1] - 3 (then rejected by the type checker) instead of two.  With the
